@@ -760,8 +760,10 @@ class ScipyOptimizeDriver(Driver):
 
         grad_idx = self._con_idx[name] + idx
 
-        # Equality constraints
-        if meta['equals'] is not None:
+        # Equality constraints, and constraints passed as NonlinearConstraint objects (their
+        # bounds are passed to scipy, so there is no sign change)
+        if meta['equals'] is not None or \
+                (self.options['optimizer'] in _supports_new_style and _use_new_style):
             return grad[grad_idx, :]
 
         # Note, scipy defines constraints to be satisfied when positive,
